@@ -10,8 +10,8 @@ import (
 // TestVerif_C04C11_Advance: Position.Advance on its own (it is under contract; this stand-in covers what the string
 // axioms abstract away, in particular text that is not valid UTF-8): the position after a span is the exact
 // position of that offset in the text.
-func TestVerif_C04C11_Advance(t *testing.T) {
-	res := &verifResult{Check: "Position.Advance", Property: "C04 C11", Exhaustive: true,
+func TestVerif_C04C11C07_Advance(t *testing.T) {
+	res := &verifResult{Check: "Position.Advance", Property: "C04 C11 C07", Exhaustive: true,
 		Bound: "all texts of <= 5 (thorough: 6) pieces over {a, newline, é, \\xa3, \\x80, \\xff, tab} cut into a prefix and a span at every byte boundary that is a decode boundary of the text",
 		Rule: "distinct (text, cut) pairs; non-trivial = the span holds a newline or a byte that is not ASCII"}
 	alpha := []string{"a", "\n", "é", "\xa3", "\x80", "\xff", "\t"}
